@@ -261,6 +261,12 @@ func textDecodeCase(ctx *Ctx, c textCodec, tg planTarget, doc []byte, origin str
 				if !bytes.Equal(doc1, doc2) {
 					ctx.Res.Violate(report.Violation{Property: "C18", Oracle: "fixed-point", Key: c.name + ":second-reencode-differs", Detail: "second re-encoding differs from the first", Line: line})
 				}
+				// through the two other encodings in every order, with value comparison (fix.go)
+				for e, fc := range fixCodecs {
+					if fc.name == c.name {
+						fixOracle(ctx, line, tg, getSchema().Dyns[tg.dyn].GoType, e, v1.Interface())
+					}
+				}
 				// through binary as well
 				b1, pb := guard("MarshalTTLV", func() []byte { return ttlv.MarshalTTLV(v1.Interface()) })
 				if pb != "" {
